@@ -17,6 +17,13 @@ RULE = (
     "whole stream is consumed. distinct = blake2b(stream, setting); non-trivial = stream has >= 2 frames and >= 1 "
     "foreign item or damaged checksum"
 )
+RULE += (
+    ' Also: seekable and bytearray-returning streams; equal bogus trailers on equal-length frames; frames'
+    ' embedding sync-like material; payload sizes 256/509-512/767/1021-1023; frames with steered checksum'
+    ' bytes; a bystander reader with the opposite options kept alive; with validation off every raw frame'
+    ' is returned also when parsing is off; the right-checksum twin through the static parser as bytearray'
+    ' with validation on.'
+)
 ASSUMPTIONS = ["checksum-only damage: the three CRC bytes are replaced by a different value; header and payload intact"]
 GATES = ["settings_compared", "validate0_twin_checked", "parsed_false_checked", "offsets_compared",
          "static_validate0_checked", "seekable_backend", "plain_backend"]
